@@ -35,20 +35,28 @@ def main():
     res = {'property': prop, 'change': k, 'source': 'independent sub-agent given only the property text and a scratch worktree'}
     try:
         txt = open(demo).read()
-        txt = re.sub(r'\\\s*\n//\s*', ' ', txt)          # join continuation lines of the build comment
-        m = re.search(r'//\s*((?:cd [^\n&]*&&\s*)?g\+\+[^\n]*)', txt)
+        txt = re.sub(r'\\\s*\n(//)?\s*', ' ', txt)          # join continuation lines of the build comment
+        m = re.search(r'^\s*(?://|\*)?\s*((?:cd [^\n&]*&&\s*)?g\+\+[^\n]*)', txt, flags=re.M)
         cmd = m.group(1).strip()
-        # continuation lines of the build command
         seed_root = re.search(r'(/tmp/seed_C\d+)', cmd).group(1)
-        shutil.copy(demo, os.path.join(wt, 'demo.cpp'))
-        cmd = cmd.replace('%s/out/demo%s.cpp' % (seed_root, k), wt + '/demo.cpp').replace('../out/demo%s.cpp' % k, wt + '/demo.cpp')
-        cmd = re.sub(r'-o\s+\S+', '-o %s/demo.bin' % wt, cmd)
-        cmd = cmd.replace(seed_root + '/src', wt + '/src')
+        # the scratch worktree mimics the agent's directory layout: <wt>/out/demo<k>.cpp, sources under <wt>/src
+        os.makedirs(os.path.join(wt, 'out'), exist_ok=True)
+        shutil.copy(demo, os.path.join(wt, 'out', 'demo%s.cpp' % k))
+        cmd = cmd.replace(seed_root, wt)
         parts = [x.strip() for x in cmd.split('&&')]
-        build = ' && '.join(parts[:2]) if parts[0].startswith('cd ') else parts[0]
+        cwd = wt
+        if parts[0].startswith('cd '):
+            cwd = parts[0][3:].strip()
+            parts = parts[1:]
+        build = parts[0]
+        mo = re.search(r'-o\s+(\S+)', build)
+        binary = mo.group(1) if mo else 'a.out'
+        binary = binary if os.path.isabs(binary) else os.path.join(cwd, binary)
+        build = 'cd %s && %s' % (cwd, build)
+        demo_bin = binary
         rc, out = sh(build, timeout=900)
         res['demo_build_pristine'] = rc
-        rc, out = sh(wt + '/demo.bin', timeout=300)
+        rc, out = sh(demo_bin, timeout=300, cwd=cwd)
         res['demo_pristine_exit'] = rc
         res['demo_pristine_tail'] = out[-300:]
         rc, out = sh('git -C %s apply %s' % (wt, diff))
@@ -61,7 +69,7 @@ def main():
             res['suite_tail'] = out[-300:]
             rc, out = sh(build, timeout=900)
             res['demo_build_changed'] = rc
-            rc, out = sh(wt + '/demo.bin', timeout=300)
+            rc, out = sh(demo_bin, timeout=300, cwd=cwd)
             res['demo_changed_exit'] = rc
             res['demo_changed_tail'] = out[-400:]
     finally:
